@@ -26,7 +26,8 @@ LEVEL_TEXT = ("Every single server behaviour of the matrix {status} x {content-t
               "pairs (thorough) and seeded sequences of length 3-4; for every request the messages that reached the read "
               "stream are compared with the reference model (server's messages exactly, or exactly one terminal message "
               "with the request's id) and every POST's Mcp-Session-Id with the latest issued id. Thorough adds a real "
-              "loopback HTTP server.")
+              "loopback HTTP server."
+              " Also answers of 99-400 messages, and a second transport with its own session id alive in the same process.")
 LEVEL_NOTE = ("Trusted: httpx.MockTransport delivers the scripted response as a real server would (thorough cross-checks "
               "with a raw asyncio loopback server incl. chunked encoding); vf/ref.py SSE parser. Where the statement is "
               "silent (JSON/SSE body under an unexpected content type, an unterminated last SSE event, event types other "
